@@ -188,7 +188,7 @@ func runC06(r *ev.Run, thorough bool) {
 		fd = 5
 	}
 	scs = append(scs, frameScenarios(func(t *rm.Type) bool { return true }, fd)...)
-	r.Rule = fmt.Sprintf("every type as a single-type scenario (messages Z, D; nil-extension variants; long variants) with ALL operation sequences of length <= %d over {ENC(m0),ENC(m1),SKIP(1),SKIP(3),JUNK(1 byte),JUNK(5000 bytes),RESET} x 4 capacity classes, plus all frame scenarios of C04 at depth %d; oracle: after ENC the unread buffer == prior ++ EncodeRef(m), prior bytes identical; same object encoded again gives the same bytes; distinct = (scenario,capacity,sequence)", depth, fd)
+	r.Rule = fmt.Sprintf("every type as a single-type scenario (messages Z, D; nil-extension variants; long variants) with ALL operation sequences of length <= %d over {ENC(m0),ENC(m1),SKIP(1),SKIP(3),JUNK(1 byte),JUNK(5000 bytes),RESET} x 4 capacity classes, plus all frame scenarios of C04 at depth %d; oracle: after ENC the unread buffer == prior ++ EncodeRef(m), prior bytes identical; same object encoded again gives the same bytes; the V1 repeatability history again for 8 never-seen values per type AFTER A LONG SESSION (5,000 / 70,000 round trips of ever new values per type); distinct = (scenario,capacity,sequence)", depth, fd)
 	r.Assume("model transition for ENC is: unread ++= EncodeRef(m)")
 	for _, sc := range scs {
 		sc.SkipObjectCheck = true
@@ -196,6 +196,7 @@ func runC06(r *ev.Run, thorough bool) {
 	parScenarios(r, "C06", scs)
 	// repeatability over the whole value space V1: the SAME object encoded several times into one buffer
 	v1Histories(r, "C06", bind.Types, [][]hOp{{{opJUNK, 0}, {opENC, 0}, {opENC, 0}, {opSKIP, 1}, {opENC, 0}}}, capZero, true, false)
+	defer warmHistories(r, "C06", thorough, [][]hOp{{{opJUNK, 0}, {opENC, 0}, {opENC, 0}, {opSKIP, 1}, {opENC, 0}}}, capZero, true)
 	// encodes that must fail, followed by valid ones: nothing of the failed attempt may leak into later output
 	afterFailedEncode(r, "C06", bind.Types)
 	r.Sample("szse.NewOrder nil-fill: [ENC(m0) ENC(m0) SKIP(3)] (encoder materialises the extension, second encode must give the same bytes)")
@@ -283,8 +284,9 @@ func runC07(r *ev.Run, thorough bool) {
 			return true
 		})
 	})
+	defer warmHistories(r, "C07", thorough, [][]hOp{{{opENC, 0}, {opJUNK, 1}, {opDEC, 0}}, {{opJUNK, 2}, {opSKIP, 1}, {opENC, 0}, {opENC, 0}, {opDEC, 0}, {opDEC, 0}}}, capZero, true)
 	v1Histories(r, "C07", bind.Types, [][]hOp{{{opENC, 0}, {opJUNK, 1}, {opDEC, 0}}, {{opJUNK, 2}, {opSKIP, 1}, {opENC, 0}, {opENC, 0}, {opDEC, 0}, {opDEC, 0}}}, capZero, true, true)
-	r.Rule = fmt.Sprintf("for EVERY canonical value of V1 of every type the histories [ENC JUNK DEC] and [JUNK SKIP ENC ENC DEC DEC]; per type: every tuple of <= %d encodes of messages {Z, D, L(300-byte texts, 3-element lists), another registered body} into one buffer, each of 5 tails (none, 00, FF, AAx5, a strict prefix of another encoding), then as many decodes; plus ALL sequences of length <= %d over {ENC,ENC,JUNK,JUNK,DEC,SKIP}; oracle: each decode consumes exactly len(EncodeRef(m)), yields the original value, leaves the remaining bytes identical; distinct = (type,capacity,sequence)", n, depth)
+	r.Rule = fmt.Sprintf("for EVERY canonical value of V1 of every type the histories [ENC JUNK DEC] and [JUNK SKIP ENC ENC DEC DEC], and the same two histories for 8 never-seen values per type AFTER A LONG SESSION (5,000 / 70,000 round trips of ever new values per type); per type: every tuple of <= %d encodes of messages {Z, D, L(300-byte texts, 3-element lists), another registered body} into one buffer, each of 5 tails (none, 00, FF, AAx5, a strict prefix of another encoding), then as many decodes; plus ALL sequences of length <= %d over {ENC,ENC,JUNK,JUNK,DEC,SKIP}; oracle: each decode consumes exactly len(EncodeRef(m)), yields the original value, leaves the remaining bytes identical; distinct = (type,capacity,sequence)", n, depth)
 	r.Assume("after a failed decode the model re-synchronises with the real buffer (C07 constrains only successful decodes)")
 	r.Sample("sse.SseBinary: [ENC(m1) ENC(m0) ENC(m2) JUNK(3) DEC DEC DEC]")
 	r.Set("bound", map[string]any{"max_encodes": n, "free_depth": depth})
@@ -300,12 +302,73 @@ func runC16(r *ev.Run, thorough bool) {
 	for _, t := range bind.Types {
 		scs = append(scs, &hScenario{Name: t.QName(), T: t, Msgs: []*rm.Value{valenum.Distinct(t), valenum.Long(t)}, Ops: ops, Depth: depth, Caps: []int{capOwned, capZero}})
 	}
-	r.Rule = fmt.Sprintf("per type (messages D and L): ALL operation sequences of length <= %d over {ENC(m0),ENC(m1),DEC,SCRIBBLE(overwrite unread bytes, spare capacity and the caller-owned backing array with EE),RESET,MUT(change every scalar, text, list element and nested part of m0 in place)} x {buffer over a caller-owned slice, zero-value buffer}; separation invariant after every op: every decoded message equals its deep snapshot, buffer bytes equal the model; plus the history [ENC DEC SCRIBBLE RESET ENC MUT] over a caller-owned slice for EVERY canonical value of V1; distinct = (type,capacity,sequence) / (type,value)", depth)
+	r.Rule = fmt.Sprintf("per type (messages D and L): ALL operation sequences of length <= %d over {ENC(m0),ENC(m1),DEC,SCRIBBLE(overwrite unread bytes, spare capacity and the caller-owned backing array with EE),RESET,MUT(change every scalar, text, list element and nested part of m0 in place)} x {buffer over a caller-owned slice, zero-value buffer}; separation invariant after every op: every decoded message equals its deep snapshot, buffer bytes equal the model; plus the history [ENC DEC SCRIBBLE RESET ENC MUT] over a caller-owned slice for EVERY canonical value of V1, and again for 8 never-seen values per type AFTER A LONG SESSION (5,000 round trips of ever new values per type; 70,000 in thorough); distinct = (type,capacity,sequence) / (type,value)", depth)
 	r.Assume("snapshots are deep copies made through reflection (strings re-allocated)")
 	parScenarios(r, "C16", scs)
 	v1Histories(r, "C16", bind.Types, [][]hOp{{{opENC, 0}, {opDEC, 0}, {opSCRIBBLE, 0}, {opRESET, 0}, {opENC, 0}, {opMUT, 0}}}, capOwned, true, true)
+	warmHistories(r, "C16", thorough, [][]hOp{{{opENC, 0}, {opDEC, 0}, {opSCRIBBLE, 0}, {opRESET, 0}, {opENC, 0}, {opMUT, 0}}}, capOwned, true)
 	r.Sample("sample.StringPacket: [ENC(m0) DEC SCRIBBLE] over a caller-owned slice: decoded message unchanged")
 	r.Set("bound", map[string]any{"depth": depth})
+}
+
+// warmSession is a LONG SESSION: every type encodes and decodes n messages whose texts and numbers are all new
+// (valenum.Salted), so whatever the library accumulates across calls (an intern table, a cache, a pool, a counter
+// that switches a code path) is saturated before the pass that follows. Runs after all cold legs.
+func warmSession(r *ev.Run, n int) {
+	parTypes(r, bind.Types, func(t *rm.Type, l *ev.Local) {
+		for s := 1; s <= n; s++ {
+			func() {
+				defer func() { recover() }()
+				msg := bind.MustReal(valenum.Salted(t, s))
+				buf := &bytes.Buffer{}
+				if bind.Encode(msg, buf) == nil {
+					_ = bind.Decode(bind.New(t), buf)
+				}
+			}()
+			l.Transitions += 2
+		}
+	})
+	r.Set("long_session_warm_up", fmt.Sprintf("%d encode+decode round trips of ever new values per type (%d in total) before the warm pass", n, n*len(bind.Types)))
+}
+
+func warmN(thorough bool) int {
+	if thorough {
+		return 70000
+	}
+	return 5000
+}
+
+// warmHistories: after a long session, the given histories on values the library has not seen before.
+func warmHistories(r *ev.Run, prop string, thorough bool, seqs [][]hOp, capClass int, skipObj bool) {
+	n := warmN(thorough)
+	warmSession(r, n)
+	parTypes(r, bind.Types, func(t *rm.Type, l *ev.Local) {
+		sc := &hScenario{Name: t.QName() + " after a long session", T: t, SkipObjectCheck: skipObj}
+		for s := n + 1; s <= n+8; s++ {
+			v := valenum.Salted(t, s)
+			if _, err := rm.EncodeBytes(v); err != nil {
+				continue
+			}
+			for si, seq := range seqs {
+				sc.Msgs = []*rm.Value{v.Clone()}
+				f, steps, key := runHistory(sc, capClass, seq)
+				l.Evals++
+				l.Transitions += int64(steps)
+				l.Traces++
+				l.Keys[ev.H(fmt.Sprint(t.QName(), "warm", si, s))] = struct{}{}
+				l.States[key] = struct{}{}
+				if f != nil && histRelevant[prop](f) {
+					v := histViolation(prop, sc, f, capClass, seq)
+					v.Detail = fmt.Sprintf("after a session of %d round trips per type, new value (salt %d): ", n, s) + v.Detail
+					v.Replay["warm_session"] = n
+					r.Violate(v)
+					if r.TooMany() {
+						return
+					}
+				}
+			}
+		}
+	})
 }
 
 // valenumHuge enlarges the body of a frame value in place; false if the body type cannot exceed 64 KiB.
